@@ -844,6 +844,31 @@ impl Rig {
         self.inject_bytes(to, Port::Consensus, data)
     }
 
+    /// Write a value straight into node i's store (e.g. to make a batch available).
+    pub fn store_write(&mut self, i: usize, key: Vec<u8>, value: Vec<u8>) {
+        if !self.is_real(i) {
+            return;
+        }
+        simnet::set_current(i);
+        let node = self.nodes[i].as_mut().unwrap();
+        let mut store = node.store.clone();
+        node.rt.block_on(async move {
+            store.write(key, value).await;
+            settle(5).await;
+        });
+    }
+
+    /// Read a value from node i's store.
+    pub fn store_read(&mut self, i: usize, key: Vec<u8>) -> Option<Vec<u8>> {
+        if !self.is_real(i) {
+            return None;
+        }
+        simnet::set_current(i);
+        let node = self.nodes[i].as_mut().unwrap();
+        let mut store = node.store.clone();
+        node.rt.block_on(async move { store.read(key).await.ok().flatten() })
+    }
+
     /// Advance node i's clock.
     pub fn advance(&mut self, i: usize, ms: u64) {
         if !self.is_real(i) {
